@@ -1472,4 +1472,61 @@ theorem memLS_refines_spec (ops : List Op) :
     (MemLS.init.run ops).2 = (Spec.init.run ops).2 :=
   (RI_run _ _ ⟨R_init, hinv_init⟩ ops).2
 
+/-! ### the property clauses transferred to the implementation model -/
+
+theorem reachable_RI (ops : List Op) : RI (MemLS.init.run ops).1 (Spec.init.run ops).1 :=
+  (RI_run _ _ ⟨R_init, hinv_init⟩ ops).1
+
+/-- Tokens returned by the implementation model are never repeated within a history. -/
+theorem impl_tokens_unique (ops : List Op) : (createdToks (MemLS.init.run ops).2).Nodup := by
+  rw [memLS_refines_spec]; exact tokens_unique ops
+
+/-- After any history, `Create` on the implementation model succeeds exactly when no live lock
+of the (abstract) lock list conflicts. -/
+theorem impl_create_succeeds_iff (ops : List Op) (now : Int) (raw : Bytes) (zd : Bool) (dur : Int) :
+    ((MemLS.init.run ops).1.create now raw zd dur).2 = .created (Spec.init.run ops).1.gen ↔
+      ∀ l ∈ (Spec.init.run ops).1.locks, l.expired now = false →
+        l.conflicts (slashCleanComps raw) zd = false := by
+  have := (RI_step _ _ (reachable_RI ops) (.create now raw zd dur)).2
+  simp only [MemLS.step, Spec.step] at this
+  rw [this]
+  exact create_succeeds_iff _ now raw zd dur
+
+/-- After any history, Refresh and Unlock of a held lock answer ErrLocked on the implementation
+model, and those of an expired unheld lock answer ErrNoSuchLock. -/
+theorem impl_held_and_expired (ops : List Op) (l : Lock) (hl : l ∈ (Spec.init.run ops).1.locks)
+    (now dur : Int) :
+    (l.held = true →
+      ((MemLS.init.run ops).1.refresh now (some l.token) dur).2 = .errLocked ∧
+      ((MemLS.init.run ops).1.unlock now (some l.token)).2 = .errLocked) ∧
+    (l.expired now = true →
+      ((MemLS.init.run ops).1.refresh now (some l.token) dur).2 = .errNoSuchLock ∧
+      ((MemLS.init.run ops).1.unlock now (some l.token)).2 = .errNoSuchLock) := by
+  have hri := reachable_RI ops
+  have h1 := (RI_step _ _ hri (.refresh now (some l.token) dur)).2
+  have h2 := (RI_step _ _ hri (.unlock now (some l.token))).2
+  simp only [MemLS.step, Spec.step] at h1 h2
+  rw [h1, h2]
+  constructor
+  · intro hh
+    rw [held_refresh _ hri.hi.inv l hl hh, held_unlock _ hri.hi.inv l hl hh]
+    exact ⟨rfl, rfl⟩
+  · intro he
+    exact ⟨expired_refresh _ hri.hi.inv l hl now dur he, expired_unlock _ hri.hi.inv l hl now he⟩
+
+/-! ### non-vacuity: concrete histories evaluated on both models -/
+
+/-- "/a" infinite for 10 s; "/a/b" conflicts at t=1 and is free again at t=10 (expiry reached). -/
+example : (Spec.init.run [.create 0 [47,97] false 10, .create 1 [47,97,47,98] true (-1),
+    .create 10 [47,97,47,98] true (-1)]).2 = [.created 0, .errLocked, .created 1] := by decide
+example : (MemLS.init.run [.create 0 [47,97] false 10, .create 1 [47,97,47,98] true (-1),
+    .create 10 [47,97,47,98] true (-1)]).2 = [.created 0, .errLocked, .created 1] := by decide
+/-- a confirmed lock rejects Refresh/Unlock/Confirm, survives its expiry while held, and is
+collected after release. -/
+example : (MemLS.init.run [.create 0 [47,97] true 5, .confirm 1 [47,97] [] [some 0],
+    .refresh 2 (some 0) 9, .unlock 2 (some 0), .confirm 2 [47,97] [] [some 0],
+    .create 7 [47,97] true 5, .release 0, .create 7 [47,97] true 5]).2 =
+    [.created 0, .confirmed 0, .errLocked, .errLocked, .errConfirmationFailed, .errLocked, .ok,
+     .created 1] := by decide
+
 end NetVerif.Proofs.C43
